@@ -21,12 +21,20 @@ class RealDiff:
     node identity table (proxies kept alive), similarity oracle table, match list,
     script, final working copy."""
 
-    def __init__(self, Lp, Rp, opts):
+    def __init__(self, Lp, Rp, opts, embed=False):
         from xmldiff import diff
 
         self.Lp, self.Rp, self.opts = Lp, Rp, opts
         self.L = xt.to_lxml(Lp)
         self.R = xt.to_lxml(Rp)
+        self.keep = []
+        if embed:
+            # the right tree is an element inside a larger document: a copy of the left document and a comment follow it
+            holder = etree.Element("holder")
+            holder.append(self.R)
+            holder.append(xt.to_lxml(Lp.copy()))
+            holder.append(etree.Comment(" after "))
+            self.keep.append(holder)
         self.differ = diff.Differ(**opts)
         self.differ.set_trees(self.L, self.R)
         # keep every proxy alive: id() must stay a stable identity
@@ -35,7 +43,6 @@ class RealDiff:
         self.lid = {id(n): p.id for n, p in zip(self.lnodes, Lp.iter())}
         self.rid = {id(n): p.id for n, p in zip(self.rnodes, Rp.iter())}
         assert len(self.lnodes) == Lp.size() and len(self.rnodes) == Rp.size()
-        self.keep = []
 
     def sim_table(self):
         """sim l r c for every comparable pair and every possible matched-children count,
@@ -111,7 +118,8 @@ class RealDiff:
     def match(self):
         m = self.differ.match()
         self.keep.append(m)
-        return [(self.lid[id(a)], self.rid[id(b)]) for a, b, _ in m]
+        # a node that is in neither tree gets the id -1
+        return [(self.lid.get(id(a), -1), self.rid.get(id(b), -1)) for a, b, _ in m]
 
     def script(self):
         """list(differ.diff()) after match(); returns the action list."""
